@@ -472,6 +472,11 @@ func runPipeCtl(c *ctx) error {
 			return err
 		}
 	}
+	if want("C04", "C05", "C10", "C03", "C07") {
+		if err := ctlRejoinFaults(c, file); err != nil {
+			return err
+		}
+	}
 	if want("C01", "C02", "C03", "C06", "C08", "C09", "C10", "C07") {
 		if err := ctlSharedKey(c, file); err != nil {
 			return err
